@@ -207,6 +207,10 @@ def main(argv):
     seed = int(os.environ.get("VERIF_SEED", "1"))
     cfg = propcfg.PROPS[prop]
     t0 = time.time()
+    if not replay:
+        import glob
+        for old in glob.glob(os.path.join(VERIF, "out", "%s-%d-*.replay" % (prop, seed))):
+            os.remove(old)
     violations = []   # (replay_path, suffix)
     known_lines = []
     notes = []
